@@ -3,8 +3,9 @@
 CONSTANTS
   Alphabet = {97, 48, 46, 124, 58, 47, 61, 0, 195}
   MaxShort = 4
-  RunBytes = {97, 46, 124, 58, 47}
+  RunBytes = {97}
   RunCounts = {1, 149, 150, 151}
+  SepBytes = {46, 124, 58, 47}
   MaxSegs = 3
   Pool <- PoolQuick
   MaxParts = 5
@@ -14,5 +15,5 @@ CONSTANTS
 INIT Init
 NEXT Next
 INVARIANTS TypeOK ValidIsDocumentedRule NoSeparatorInAccepted ResolversAgree MultiIsNormalised
-           MetadataIgnoredConsistently SplitJoin MetaGrammar NoOrgIsRefused Emit
+           MetadataIgnoredConsistently SplitJoin MetaGrammar MetaOps NoOrgIsRefused Emit
 CHECK_DEADLOCK FALSE
